@@ -9,7 +9,6 @@ package c10
 import (
 	"fmt"
 	"math/big"
-	"os"
 	"time"
 
 	sdkmath "cosmossdk.io/math"
@@ -33,7 +32,7 @@ type runner struct {
 	r     *emit.Rand
 	cf    *emit.CasesFile
 	st    *emit.Stats
-	fresh [][]bool  // [user][validator]: claimed after the validator's last accrual
+	fresh [][]bool       // [user][validator]: claimed after the validator's last accrual
 	ent   [][][]*big.Rat // [user][validator][denom]: entitlement accrued so far (exact)
 	paid  [][][]*big.Int // [user][validator][denom]: paid so far
 	maxE  int
@@ -249,9 +248,6 @@ func (rn *runner) corpus() {
 // Run generates n cases from seed, runs them on the real application and writes
 // cases_*.v and stats.json into outDir.
 func Run(seed int64, n int, outDir string) error {
-	if os.Getenv("C10_SPIKE") != "" {
-		return spike()
-	}
 	rn := newRunner(seed)
 	defer rn.w.h.Close()
 	rn.st = emit.NewStats("C10", seed, "step: one message or block on the full application, compared with the model on the dumped state; non-trivial when a claim (explicit or inside delegate/undelegate) paid > 0 while >= 2 delegators of the validator held different share amounts, distinct by (validator, user, amounts paid). pure: types.Calculate* on generated integers")
